@@ -228,7 +228,8 @@ Lemma body_drain_aligns_lemma : forall mode early cl stream sched ws data b' r',
   sched_pos sched -> Forall (fun w => 0 < w) ws ->
   cl <= length early + Nat.min (sum_sched sched) (length stream) ->
   hb_reads mode (hb_new early cl) (mk_reader stream sched) ws = (data, b', r', None) ->
-  exists b'' r'', hb_drain mode b' r' = Ok (b'', r'') /\ rd_data r'' = skipn (cl - length early) stream /\ hb_unread b'' = 0.
+  exists b'' r'', hb_drain mode b' r' = Ok (b'', r'') /\ rd_data r'' = skipn (cl - length early) stream /\ hb_unread b'' = 0 /\
+                  (forall w, hb_read mode b'' r'' w = Ok ([], b'', r'')).
 Proof.
   intros mode early cl stream sched ws data b' r' Hp Hws Hd Hr.
   set (d := Nat.min (sum_sched sched) (length stream)) in *.
@@ -239,7 +240,7 @@ Proof.
   destruct Hinv' as [[Hb [Hc [Hle [Hrd Hu]]]] Hat].
   assert (Hpd : hb_offset b' - length early <= d) by (destruct Hat as [_ [_ [? _]]]; assumption).
   destruct (drain_loop_exact mode stream d (S (hb_unread b')) (hb_unread b') _ r' Hat ltac:(lia) ltac:(lia)) as [r'' [Hdr Hat']].
-  unfold hb_drain. rewrite Hdr. eexists. exists r''. split; [reflexivity|]. split; [|reflexivity].
+  unfold hb_drain. rewrite Hdr. eexists. exists r''. split; [reflexivity|]. split; [|split; [reflexivity|intros w; reflexivity]].
   destruct Hat' as [Hrd' _]. rewrite Hrd'. f_equal. lia.
 Qed.
 
